@@ -7,6 +7,8 @@ import datetime
 import hashlib
 import json
 import math
+import os
+import sys
 import random
 
 from . import common as C
@@ -356,6 +358,60 @@ def run(tier, seed):
                 rep.violation("C04:python-equal-value-served-from-other-key", "after a call with %r, a call with %r did not execute the body (%d executions): it was served another call's result" % (v1, v2, outs[1][1]), meta)
             elif outs[1][2] != canon_repr(v2):
                 rep.violation("C04:body-got-other-values", "called with %r (after a call with %r) the body received %s" % (v2, v1, outs[1][2]), meta)
+        # a function redefined (same module, same name) with its parameters in another order: positional arguments and
+        # positional partial arguments bind to the parameters of the definition that is current
+        from . import c12 as _c12
+        mroot = os.path.join(scratch, "redef04")
+        os.makedirs(mroot, exist_ok=True)
+        if mroot not in sys.path:
+            sys.path.insert(0, mroot)
+        npairs["redefined_signatures"] = 0
+        for ri in range(3 if tier == "quick" else 20):
+            names = rng.sample(["alpha", "beta", "gamma", "delta"], rng.randint(2, 3))
+            perm = names[:]
+            while perm == names:
+                rng.shuffle(perm)
+            src = """
+                import builtins
+                from twosigma.memento import memento_function
+
+                @memento_function(cluster=%r, version="1")
+                def sw(%s):
+                    t = getattr(builtins, "_vt", None)
+                    if t is not None:
+                        t(("body", "sw", dict(locals())))
+                    return 0
+                """
+            try:
+                mod = _c12.write_module(mroot, "redef%d" % ri, src % (sigmod.CL, ", ".join(names)))
+                vals = [100 * ri + i for i in range(len(names))]
+                mod.sw(*vals)
+                mod.sw.partial(vals[0])(*vals[1:])
+                mod.sw.fn_reference().with_args(*vals)
+                mod = _c12.write_module(mroot, "redef%d" % ri, src % (sigmod.CL, ", ".join(perm)))
+                vals2 = [1000 + 100 * ri + i for i in range(len(names))]
+                want = dict(zip(perm, vals2))
+                for how in ("positional", "partial"):
+                    tr.clear()
+                    if how == "positional":
+                        mod.sw(*vals2)
+                        h = mod.sw.fn_reference().with_args(*vals2).arg_hash
+                    else:
+                        mod.sw.forget(**want)
+                        mod.sw.partial(vals2[0])(*vals2[1:])
+                        h = mod.sw.partial(vals2[0]).fn_reference().with_args(*vals2[1:]).arg_hash
+                    hk = mod.sw.fn_reference().with_args(**want).arg_hash
+                    bodies = [e for e in tr.events if e[0] == "body"]
+                    seen = {k: v for k, v in (bodies[0][2] if bodies else {}).items() if k in want}
+                    npairs["redefined_signatures"] += 1
+                    meta = {"first_definition": names, "redefinition": perm, "call": how, "arguments": vals2, "body_received": seen}
+                    if seen != want:
+                        rep.violation("C04:body-got-other-values:after-redefinition", "after redefining sw(%s) as sw(%s), the %s call with %r gave the body %r" % (
+                            ", ".join(names), ", ".join(perm), how, vals2, seen), meta)
+                    if how == "positional" and h != hk:
+                        rep.violation("C04:equivalent-presentations-different-key:after-redefinition", "positional and keyword presentations of one binding got different keys after a redefinition with reordered parameters", meta)
+            except Exception as e:
+                rep.violation("C04:redefinition-raised", "%s: %s" % (type(e).__name__, str(e)[:200]), {"first_definition": names, "redefinition": perm})
         # model: exact pre-image bytes
         mism = 0
         CH = 60
